@@ -83,4 +83,83 @@ theorem connect_phase {c c1 : Cli.State} {v : Srv.State} {now : Nat} {app : Byte
   · rw [hc2, hc1]
   · rw [hv2]
 
+/-- **publish phase.**  In step, both connected.  `request_publishing` returns a createStream packet;
+    the server answers it inside `handle_input`; the client, on the answer, sends `publish` on the new
+    stream; the server raises exactly one publish request, for the connected application and the
+    requested key and mode; when the application accepts it, the status delivered to the client raises
+    exactly "publish accepted".  Afterwards the client is publishing on the stream id the server holds as
+    publishing under that key, and the two are in step — the state `C02_publish_media` starts from. -/
+theorem publish_phase {c c1 : Cli.State} {v : Srv.State} {now : Nat} {key appS : Bytes} {t : Cli.PublishType} {r1 : Cli.Res}
+    (hin : InStep c v) (htxn : c.nextTxn < 4294967296) (hns : v.nextStream < 4294967296)
+    (hkey : Utf8.valid key = true) (hkl : key.length ≤ 65535)
+    (hvc : v.connected = true) (hva : v.app = some appS)
+    (h1 : Cli.requestStream c now (.publish key t) = (c1, .ok r1)) :
+    ∃ p1 v1 p2 c2 p3 v2, r1 = .out p1 ∧
+      SrvPart.drain v now p1.bytes = (v1, .ok [.out p2]) ∧
+      CliPart.drain c1 now p2.bytes = (c2, .ok [.out p3]) ∧
+      SrvPart.drain v1 now p3.bytes = (v2, .ok [.ev (.publishRequested v.nextReq appS key (modeOf t))]) ∧
+      ∀ v3 rs3, Srv.acceptRequest v2 now v.nextReq = (v3, .ok rs3) →
+        ∃ p4 p5 c3, rs3 = [.out p4, .out p5] ∧
+          CliPart.drain c2 now (p4.bytes ++ p5.bytes) = (c3, .ok [.ev .publishAccepted]) ∧
+          InStep c3 v3 ∧
+          c3 = { c with nextTxn := c.nextTxn + 1, txns := c3.txns, st := .publishing, activeStream := some v.nextStream,
+                        ser := c3.ser, des := c3.des } ∧
+          v3 = { v with nextStream := v.nextStream + 1, streams := v3.streams, nextReq := v.nextReq + 1, reqs := v3.reqs,
+                        ser := v3.ser, des := v3.des } ∧
+          mapGet v.nextStream v3.streams = some (.publishing key (modeOf t)) := by
+  -- hop 1: createStream request
+  obtain ⟨p1, body1, hr1, hst, hp1, he1, hc1⟩ := requestStream_ok h1
+  have hwf1 := createStreamCmd_wf c htxn
+  obtain ⟨v1', p2, body2, hhm1, hp2, he2, hv1⟩ := srv_createStream v now
+    { ts := epoch now, typ := 20, msid := 0, data := body1 } c (linked_pos hin.sc)
+  have hstep1 : SrvSteps.steps v now (msgs [(p1, ({ ts := epoch now, typ := 20, msid := 0, data := body1 } : Msg))]) = _ :=
+    srv_steps_one v _ now _ _ (by rw [srv_stepMsg_of hwf1 hp1]; exact hhm1)
+  obtain ⟨core1, hd1, hl1⟩ := srv_recv now hin.cs he1 hstep1
+  rw [wire_one] at hd1
+  -- hop 2: the client takes the stream id and sends publish
+  have hwf2 := createStreamResult_wf (F64.ofU32 c.nextTxn) v.nextStream (F64.ofU32_lt _ htxn) hns
+  have hc1txn : mapGet c.nextTxn c1.txns = some (.createStream (.publish key t)) := by
+    rw [hc1]; simp [mapInsert, mapGet]
+  have hpos1 : 1 ≤ c1.ser.maxCs := Safe.emits_cs_pos he1 (linked_pos hin.cs)
+  obtain ⟨c2, p3, body3, hhm2, hp3, he3, hc2⟩ := cli_createStreamResult_publish c1 now
+    { ts := epoch now, typ := 20, msid := 0, data := body2 } c.nextTxn v.nextStream key t htxn hns hc1txn hkl hpos1
+  have hsc1 : Linked v.ser c1.des := by rw [hc1]; exact hin.sc
+  have hstep2 : CliSteps.steps c1 now (msgs [(p2, ({ ts := epoch now, typ := 20, msid := 0, data := body2 } : Msg))]) = _ :=
+    cli_steps_one c1 _ now _ _ (by rw [cli_stepMsg_of hwf2 hp2, hhm2])
+  obtain ⟨core2, hd2, hl2⟩ := cli_recv now hsc1 he2 hstep2
+  rw [wire_one] at hd2
+  -- hop 3: the server takes the publish command
+  have hwf3 := publishCmd_wf key t hkey
+  have hstep3 : SrvSteps.steps ({ v1' with des := { core := core1, buf := [] } } : Srv.State) now
+      (msgs [(p3, ({ ts := epoch now, typ := 20, msid := v.nextStream, data := body3 } : Msg))]) = _ :=
+    srv_steps_one _ _ now _ _ (by
+      rw [srv_stepMsg_of hwf3 hp3]
+      exact srv_publish _ now _ key t appS (by rw [hv1]; exact hvc) (by rw [hv1]; exact hva))
+  obtain ⟨core3, hd3, hl3⟩ := srv_recv now (v := { v1' with des := { core := core1, buf := [] } }) hl1 he3 hstep3
+  rw [wire_one] at hd3
+  have hnr : ({ v1' with des := { core := core1, buf := [] } } : Srv.State).nextReq = v.nextReq := by rw [hv1]
+  refine ⟨p1, _, p2, _, p3, _, hr1, hd1, hd2, (by rw [← hnr]; exact hd3), ?_⟩
+  intro v3 rs3 hacc
+  -- hop 4: the acceptance
+  rw [← hnr] at hacc
+  obtain ⟨p4, p5, b4, b5, hrs3, hp4, hp5, he4, _, hv3⟩ := acceptPublish_ok
+    (key := key) (mode := modeOf t) (sid := v.nextStream) (by simp [mapInsert, mapGet]) hns hacc
+  -- hop 5: the client takes the status
+  have hstepA : CliSteps.stepMsg ({ c2 with des := { core := core2, buf := [] } } : Cli.State) now
+      { ts := epoch now, typ := 4, msid := v.nextStream, data := b4 } =
+        .ok (({ c2 with des := { core := core2, buf := [] } } : Cli.State), []) :=
+    cli_step_streamBegin _ now v.nextStream _ _ 4 b4 hns hp4
+  have hstepB : CliSteps.stepMsg ({ c2 with des := { core := core2, buf := [] } } : Cli.State) now
+      { ts := epoch now, typ := 20, msid := v.nextStream, data := b5 } =
+        .ok (({ c2 with des := { core := core2, buf := [] }, st := .publishing } : Cli.State), [.ev .publishAccepted]) := by
+    rw [cli_stepMsg_of (publishStatus_wf key hkey) hp5, cli_publishStatus _ now _ key (by rw [hc2])]
+  have hstep5 := cli_steps_two _ _ _ now _ _ _ _ hstepA hstepB
+  obtain ⟨core5, hd5, hl5⟩ := cli_recv now (c := { c2 with des := { core := core2, buf := [] } }) hl2 he4 hstep5
+  rw [wire_two] at hd5
+  refine ⟨p4, p5, _, hrs3, hd5, ⟨?_, hl5⟩, ?_, ?_, ?_⟩
+  · rw [hv3]; exact hl3
+  · rw [hc2, hc1]
+  · rw [hv3, hv1]
+  · rw [hv3]; simp [mapInsert, mapGet]
+
 end Rml.Workflow
